@@ -2,7 +2,8 @@
 //!   parse : reads hex-encoded program texts (one per line) from stdin, runs the REAL
 //!           `jaq_core::load::parse(text, |p| p.term())` and prints the AST as an s-expression
 //!           (from the public structure of `parse::Term`), `ERR` if rejected, `PANIC` on panic.
-//!   lex   : same input; prints `OK <n>` (number of top-level tokens) or `ERR`.
+//!   lex   : same input; prints `OK <token trees>` (kind, source slice of simple tokens, string parts,
+//!           blocks with their opening delimiter: everything the parser reads of a token) or `ERR`.
 //!   matrix: the translator. For every ordered pair of binary operators prints how
 //!           `a op1 b op2 c` is grouped by the real parser:
 //!             OP <i> <hex of operator text>
@@ -13,6 +14,33 @@ use jaq_core::load::parse::{BinaryOp, Def, Pattern, Term};
 use jaq_core::ops::{Cmp, Math};
 use jaq_core::path::{Opt, Part};
 use std::io::BufRead;
+
+/// token tree as an s-expression (what the parser can observe of a token)
+fn tok_sexp(t: &jaq_core::load::lex::Token<&str>) -> String {
+    use jaq_core::load::lex::Tok;
+    match &t.1 {
+        Tok::Word => format!("(W {})", s(t.0)),
+        Tok::Var => format!("(V {})", s(t.0)),
+        Tok::Fmt => format!("(F {})", s(t.0)),
+        Tok::Num => format!("(N {})", s(t.0)),
+        Tok::Sym => format!("(Y {})", s(t.0)),
+        Tok::Str(parts) => {
+            let ps: String = parts
+                .iter()
+                .map(|p| match p {
+                    StrPart::Str(x) => format!(" (L {})", s(x)),
+                    StrPart::Term(t) => format!(" (T {})", tok_sexp(t)),
+                    StrPart::Char(c) => format!(" (C {})", *c as u32),
+                })
+                .collect();
+            format!("(S{ps})")
+        }
+        Tok::Block(ts) => {
+            let xs: String = ts.iter().map(|t| format!(" {}", tok_sexp(t))).collect();
+            format!("(B {}{xs})", s(&t.0[..t.0.chars().next().map_or(0, |c| c.len_utf8())]))
+        }
+    }
+}
 
 pub fn hex(b: &[u8]) -> String {
     b.iter().map(|x| format!("{x:02x}")).collect()
@@ -327,8 +355,10 @@ pub fn main(args: &[String]) {
                 let ans = match unhex(l.trim()).and_then(|b| String::from_utf8(b).ok()) {
                     None => "BAD-INPUT".to_string(),
                     Some(text) if cmd == "parse" => parse_sexp(&text),
-                    Some(text) => match catch(|| jaq_core::load::Lexer::new(&text).lex().map(|t| t.len())) {
-                        Ok(Ok(n)) => format!("OK {n}"),
+                    Some(text) => match catch(|| {
+                        jaq_core::load::Lexer::new(&text).lex().map(|ts| ts.iter().map(|t| format!(" {}", tok_sexp(t))).collect::<String>())
+                    }) {
+                        Ok(Ok(n)) => format!("OK{n}"),
                         Ok(Err(_)) => "ERR".into(),
                         Err(_) => "PANIC".into(),
                     },
